@@ -179,6 +179,16 @@ func returnsDeviceVerdict(fn *ssa.Function, sources func(cs *callSite) bool) boo
 // verdict loses it) guards an abort.  Returns "" or a description of the path
 // on which the verdict is lost.
 func verdictMustReachAbortGuard(p *Prog, call ssa.Instruction) string {
+	return verdictMustReach(p, call, isAbortCall, guardsAbort)
+}
+
+// verdictMustReach: on every path from the call to a return of the caller
+// either an instruction satisfying goal is executed, or an If whose condition
+// is computed from the call's result and that satisfies guardOK is evaluated.
+// Phis carry the result only along the edge it arrives on; a phi that receives
+// a boolean constant along the path taken fixes the outcome of a later test of
+// that phi (so `x = f() || x` is followed correctly).
+func verdictMustReach(p *Prog, call ssa.Instruction, goal func(ssa.Instruction) bool, guardOK func(*ssa.If) bool) string {
 	v := call.(ssa.Value)
 	var derives func(x ssa.Value, car map[ssa.Value]bool, d int) bool
 	derives = func(x ssa.Value, car map[ssa.Value]bool, d int) bool {
@@ -215,29 +225,33 @@ func verdictMustReachAbortGuard(p *Prog, call ssa.Instruction) string {
 		key string
 	}
 	seen := map[state]bool{}
-	keyOf := func(car map[ssa.Value]bool) string {
+	keyOf := func(car map[ssa.Value]bool, known map[ssa.Value]bool) string {
 		var l []string
 		for c := range car {
 			l = append(l, c.Name())
+		}
+		for c, b := range known {
+			l = append(l, fmt.Sprintf("%s=%v", c.Name(), b))
 		}
 		sort.Strings(l)
 		return strings.Join(l, ",")
 	}
 	var lost string
-	var walk func(b *ssa.BasicBlock, from int, car map[ssa.Value]bool)
-	walk = func(b *ssa.BasicBlock, from int, car map[ssa.Value]bool) {
+	var walk func(b *ssa.BasicBlock, from int, car, known map[ssa.Value]bool)
+	walk = func(b *ssa.BasicBlock, from int, car, known map[ssa.Value]bool) {
 		if lost != "" {
 			return
 		}
-		st := state{b, keyOf(car)}
+		st := state{b, keyOf(car, known)}
 		if from == 0 {
 			if seen[st] {
 				return
 			}
 			seen[st] = true
 		}
+		only := -1
 		for _, in := range b.Instrs[from:] {
-			if isAbortCall(in) {
+			if goal(in) || isAbortCall(in) {
 				return
 			}
 			switch x := in.(type) {
@@ -252,12 +266,32 @@ func verdictMustReachAbortGuard(p *Prog, call ssa.Instruction) string {
 					return
 				}
 			case *ssa.If:
-				if derives(x.Cond, car, 0) && guardsAbort(x) {
+				if derives(x.Cond, car, 0) && guardOK(x) {
 					return
+				}
+				c, neg := stripNot(x.Cond)
+				if car[c] {
+					// the test is the (boolean) verdict itself: on the edge where it is
+					// false there is nothing left to act on
+					if neg {
+						only = 1
+					} else {
+						only = 0
+					}
+				}
+				if kv, ok := known[c]; ok {
+					if kv != neg {
+						only = 0
+					} else {
+						only = 1
+					}
 				}
 			}
 		}
-		for _, s := range b.Succs {
+		for si, s := range b.Succs {
+			if only >= 0 && si != only {
+				continue
+			}
 			idx := -1
 			for i, pr := range s.Preds {
 				if pr == b {
@@ -268,19 +302,31 @@ func verdictMustReachAbortGuard(p *Prog, call ssa.Instruction) string {
 			for c := range car {
 				nc[c] = true
 			}
+			nk := map[ssa.Value]bool{}
+			for c, kv := range known {
+				nk[c] = kv
+			}
 			for _, in := range s.Instrs {
 				ph, ok := in.(*ssa.Phi)
 				if !ok {
 					break
 				}
-				if idx >= 0 && car[ph.Edges[idx]] {
-					nc[ph] = true
+				delete(nk, ph)
+				if idx >= 0 {
+					if car[ph.Edges[idx]] {
+						nc[ph] = true
+					}
+					if kv, isC := constBool(ph.Edges[idx]); isC {
+						nk[ph] = kv
+					} else if kv, isK := known[ph.Edges[idx]]; isK {
+						nk[ph] = kv
+					}
 				}
 			}
-			walk(s, 0, nc)
+			walk(s, 0, nc, nk)
 		}
 	}
-	walk(call.Block(), instrIndex(call)+1, map[ssa.Value]bool{v: true})
+	walk(call.Block(), instrIndex(call)+1, map[ssa.Value]bool{v: true}, map[ssa.Value]bool{})
 	return lost
 }
 
